@@ -107,19 +107,46 @@ def extract_deps():
 
 
 def harness(release=False):
+    """cg-dump built against paths.REPO.  harness/Cargo.toml names /repo; for another repository
+    (VERIF_REPO=<scratch worktree>, used to try mutations without touching /repo) a copy of the
+    harness with the path rewritten is built in its own target directory."""
+    hdir, target = paths.HARNESS, paths.HARNESS_TARGET
+    if os.path.realpath(paths.REPO) != '/repo':
+        import hashlib
+        import shutil
+        tag = hashlib.sha1(os.path.realpath(paths.REPO).encode()).hexdigest()[:10]
+        hdir = os.path.join(paths.CACHE, 'harness-' + tag)
+        target = os.path.join(paths.CACHE, 'harness-target-' + tag)
+        os.makedirs(os.path.join(hdir, 'src'), exist_ok=True)
+        os.makedirs(os.path.join(hdir, '.cargo'), exist_ok=True)
+        toml = open(os.path.join(paths.HARNESS, 'Cargo.toml')).read().replace('"/repo"', '"%s"' % os.path.realpath(paths.REPO))
+        for rel, text in (('Cargo.toml', toml),
+                          ('Cargo.lock', open(os.path.join(paths.HARNESS, 'Cargo.lock')).read()),
+                          ('.cargo/config.toml', open(os.path.join(paths.HARNESS, '.cargo', 'config.toml')).read()),
+                          ('src/main.rs', open(os.path.join(paths.HARNESS, 'src', 'main.rs')).read())):
+            dst = os.path.join(hdir, rel)
+            if not os.path.exists(dst) or open(dst).read() != text:
+                open(dst, 'w').write(text)
     cmd = ['cargo', 'build', '--offline']
     if release:
         cmd.append('--release')
-    env = dict(ENV, CARGO_TARGET_DIR=paths.HARNESS_TARGET)
-    run('cargo-harness', cmd, cwd=paths.HARNESS, env=env)
-    return os.path.join(paths.HARNESS_TARGET, 'release' if release else 'debug', 'cg-dump')
+    env = dict(ENV, CARGO_TARGET_DIR=target)
+    run('cargo-harness', cmd, cwd=hdir, env=env)
+    return os.path.join(target, 'release' if release else 'debug', 'cg-dump')
 
 
 def complgen(release=False):
     cmd = ['cargo', 'build', '--offline', '--bin', 'complgen',
            '--manifest-path', os.path.join(paths.REPO, 'Cargo.toml'),
-           '--target-dir', paths.REPO_TARGET]
+           '--target-dir', repo_target()]
     if release:
         cmd.append('--release')
     run('cargo-complgen', cmd, cwd=paths.REPO)
-    return os.path.join(paths.REPO_TARGET, 'release' if release else 'debug', 'complgen')
+    return os.path.join(repo_target(), 'release' if release else 'debug', 'complgen')
+
+
+def repo_target():
+    if os.path.realpath(paths.REPO) == '/repo':
+        return paths.REPO_TARGET
+    import hashlib
+    return paths.REPO_TARGET + '-' + hashlib.sha1(os.path.realpath(paths.REPO).encode()).hexdigest()[:10]
